@@ -102,6 +102,10 @@ def handle (j : Json) : Json :=
       ok (Json.mkObj [("dict", jsonOfDict s.kind d),
                       ("back", exc ((fromDict concrete s.kind d).map jsonOfTree))])
     | none => err "bad-args"
+  | .arr #[.str "graph", t] =>
+    match treeOfJson t with
+    | some s => ok (Json.mkObj [("back", exc ((graphRoundtrip (P := String) concrete s).map jsonOfTree))])
+    | none => err "bad-args"
   | .arr #[.str "elem", .str kind, .obj kvs, .arr ops] =>
     -- the element's graph node as the store holds it: {graph property: string}
     let p : Props String := kvs.foldl (fun acc g v => match v with | .str x => acc.set g x | _ => acc) Props.empty
